@@ -79,9 +79,10 @@ def off_poly(off):
     return p
 
 
-def counter_iv(f):
-    """a loop-carried value counting 0, 1, 2, ..."""
-    ivs = [k for k, (init, step) in f["iv"].items() if init == ('ci', 0, 64) and step and len(step) == 1 and step[0] == ('op', 'add', 'i64', ('iv', k, init), ('ci', 1, 64))]
+def counter_iv(f, header=None):
+    """a loop-carried value counting 0, 1, 2, ... (of the loop with the given header, if one is named)"""
+    ivs = [k for k, (init, step) in f["iv"].items() if init == ('ci', 0, 64) and step and len(step) == 1 and step[0] == ('op', 'add', 'i64', ('iv', k, init), ('ci', 1, 64))
+           and (header is None or f["sym"].iv[k]["header"] == header)]
     return ivs[0] if ivs else None
 
 
@@ -101,8 +102,8 @@ def reader_shape(fr):
     """'per-element': header words, width word, count word, then for each on-disk width either ONE loop with a 0,1,2,..
     counter whose reads have constant sizes and whose stores are directly addressed, or one bulk read of a run-time number of
     bytes (decided per width by reader_branches), then the footer words - and no other read; else None"""
-    loop_ok = len(fr["loops"]) == 1 and counter_iv(fr) is not None and fr["loop"] and all(c.args[2][0] == 'ci' for c in fr["loop"]) \
-        and all(dyn_parts(st.off)[0] is not None for st in fr["stores"])
+    loop_ok = len(fr["loops"]) in (1, 2) and all(counter_iv(fr, h) is not None for h, _ in fr["loops"]) and fr["loop"] and all(c.args[2][0] == 'ci' for c in fr["loop"]) \
+        and all(dyn_parts(st.off)[0] is not None for st in fr["stores"])      # one element loop, or one per on-disk width (the width test hoisted out of the loop)
     no_loop = not fr["loops"] and not fr["loop"]
     if (loop_ok or (no_loop and fr["bulk"])) and len(fr["bulk"]) <= 2 \
             and fr["prefix_ok"] and all(c.args[2][0] == 'ci' for c in fr["post"]) and sum(c.args[2][1] for c in fr["post"]) == 8 \
@@ -288,13 +289,14 @@ def width_lits(lits, width_call):
     return any(is_eq(l, 4) for l in lits) or any(is_eq(l, 8) for l in lits)
 
 
-def loop_shape(f, bound_ok):
-    """one loop, induction from 0 by +1, continue iff iv+1 <(!=) bound"""
-    k = counter_iv(f)
-    if len(f["loops"]) != 1 or k is None:
+def loop_shape(f, bound_ok, header=None):
+    """the (named) loop: induction from 0 by +1, continue iff iv+1 <(!=) bound"""
+    k = counter_iv(f, header)
+    if (header is None and len(f["loops"]) != 1) or k is None:
         raise AnalysisBroken("array payload: expected one element loop with a 0,1,2,.. counter (%d loops)" % len(f["loops"]))
     nxt = ('op', 'add', 'i64', ('iv', k, ('ci', 0, 64)), ('ci', 1, 64))
-    for lits in f["latch"]:
+    latches = f["latch"] if header is None else [ir.common_lits(c) for (src, dst), c in getattr(f["sym"], "latch_cond", {}).items() if dst == header]
+    for lits in latches:
         for l in lits:
             c = l[1] if l[0] == 'not' else l
             if c[0] == 'cmp' and nxt in (c[2], c[3]):
@@ -481,9 +483,15 @@ def reader_branches(hr, fr):
                 if len(src_reads) == 1:
                     inner = ('wr', src_reads[0].n, 1, 0, st.size, 'blk')
             entries.append({"const": const, "terms": terms, "conv": conv, "src": inner, "size": st.size, "store": st, "lits": ir.common_lits(cw)})
-        latch = [ir.common_lits(under(c, truth)) for c in getattr(fr["sym"], "latch_cond", {}).values()]
+        hdrs = {tuple(fr["sym"].in_loop(c.block))[-1:] for c in reads}
+        if len(hdrs) > 1:
+            return None, "for on-disk width %d the payload is read in more than one loop" % width
+        hdr = next(iter(hdrs))[0] if hdrs and next(iter(hdrs)) else None
+        if hdr is not None:
+            entries = [e for e in entries if hdr in fr["sym"].in_loop(e["store"].block)]
+        latch = [ir.common_lits(under(c, truth)) for (src, dst), c in getattr(fr["sym"], "latch_cond", {}).items() if hdr is None or dst == hdr]
         bulk = [c for c in fr["bulk"] if not dead(under(c.cond, truth))]
-        out[width] = {"reads": reads, "stores": entries, "latch": latch, "bulk": bulk}
+        out[width] = {"reads": reads, "stores": entries, "latch": latch, "bulk": bulk, "hdr": hdr}
     return out, None
 
 
@@ -505,7 +513,9 @@ def check_reader(rep, rid, hr, fr):
             why = "payload is not followed by the two footer words"
     if why is None and fr["loops"]:
         cnt = fr["count_call"].n
-        why = loop_shape(fr, lambda t: io.norm_rd(t)[:5] == ('wr', cnt, 1, 0, 8))
+        for width in (4, 8):
+            if why is None and br[width]["hdr"] is not None:
+                why = loop_shape(fr, lambda t: io.norm_rd(t)[:5] == ('wr', cnt, 1, 0, 8), br[width]["hdr"])
     if why is None:
         for width in (4, 8):
             b = br[width]
